@@ -7,10 +7,10 @@ ID=$1; N=$2; NOTESTS=$3
 WT=/tmp/seed/$ID-wt; OUT=/tmp/seed/$ID-out/$N; LOG=$OUT/confirm.log
 cd $WT || exit 2
 git checkout -q -- . ; : > $LOG
-make -j8 >> $LOG 2>&1
+make -C lib -j8 >> $LOG 2>&1
 ( cd $OUT && bash ./run.sh ) >> $LOG 2>&1; CLEAN_RC=$?
 git apply $OUT/patch.diff >> $LOG 2>&1 || { echo "{\"id\":\"$ID-$N\",\"applies\":false}" > $OUT/confirm.json; exit 1; }
-make -j8 >> $LOG 2>&1; BUILD_RC=$?
+make -C lib -j8 >> $LOG 2>&1; BUILD_RC=$?
 if [ -z "$NOTESTS" ]; then
   make -C tests check > $OUT/confirm-tests.log 2>&1
   PASSN=$(grep -c '^PASS:' $OUT/confirm-tests.log); FAILN=$(grep -c '^FAIL:' $OUT/confirm-tests.log)
@@ -21,6 +21,6 @@ if [ -z "$NOTESTS" ]; then
   fi
 else PASSN=-1; FAILN=-1; fi
 ( cd $OUT && bash ./run.sh ) >> $LOG 2>&1; MUT_RC=$?
-git checkout -q -- . ; make -j8 >> $LOG 2>&1
+git checkout -q -- . ; make -C lib -j8 >> $LOG 2>&1
 echo "{\"id\":\"$ID-$N\",\"applies\":true,\"build_rc\":$BUILD_RC,\"tests_pass\":$PASSN,\"tests_fail\":$FAILN,\"demo_rc_clean\":$CLEAN_RC,\"demo_rc_changed\":$MUT_RC}" > $OUT/confirm.json
 cat $OUT/confirm.json
